@@ -19,13 +19,24 @@ Go being modelled (pinned tree; every `mu.Lock … mu.Unlock` section is ONE ato
         for _, h := range p.exitHooks { if h == hook { p.mu.Unlock(); return false } }
         p.exitHooks = append(p.exitHooks, hook); p.mu.Unlock(); return true
     }
-    func (p *Process) Fork() *Process {
-        p.wait.Add(1)                               -- step `forkAdd`
-        child := &Process{…, exitHooks: [ExitFunc(func(error){ p.wait.Done() })], parent: p}
+    func (p *Process) Fork() *Process {             -- (after fix 37f33b8: counter + sync.Cond under p.mu)
+        p.mu.Lock(); p.children++; p.mu.Unlock()    -- step `forkAdd`: its own critical section, BEFORE the child exists
+        child := &Process{…, exitHooks: [ExitFunc(func(error){     -- the child's wait-done hook:
+            p.mu.Lock(); defer p.mu.Unlock()
+            if p.children--; p.children == 0 { p.join.Broadcast() } })], parent: p}
+        child.join = sync.NewCond(&child.mu)
         p.AddExitHook(child)                        -- step `forkReg` (the child is invisible before it)
         return child
     }
-    func (p *Process) Join() { p.wait.Wait() }      -- step `joinReturn`, enabled iff the counter is 0
+    func (p *Process) Join() {
+        p.mu.Lock(); defer p.mu.Unlock()
+        for p.children > 0 { p.join.Wait() }        -- step `joinCheck` (one critical section per check):
+    }                                                  children > 0 → park in Wait (lock released), else return;
+                                                       a parked thread moves again only after a Broadcast
+    `children` is a plain Go `int`: a decrement below zero would not panic (it is proved unreachable).
+    Not modelled: `id`, `startTime`, `endTime`. (Observation, outside C04: `Fork` builds the child with
+    `endTime: time.Now()` and no `startTime` – `New` sets `startTime` – which looks like an upstream slip;
+    `Exit` overwrites `endTime` at termination, `StartTime()` of a forked child is the zero time.)
     Value / SetValue / RemoveValue / Keys           -- one step each (the child's lock is held while
                                                        the parent is consulted, so they linearise)
 
@@ -37,7 +48,7 @@ same goroutine: the thread pushes a new frame. A frame `{proc, rem, err}` is the
 Ghost state (not in the Go code, never read by the machine): a fresh registration token per
 effective registration (`nextTok`, `Hook.tok`), the token's owner process and whether it was
 registered after termination (`owner`, `late`), the run log, per child the tokens of its
-registration in the parent and of its `wait.Done` hook (`ctok`, `wtok`).
+registration in the parent and of its wait-done hook (`ctok`, `wtok`).
 -/
 namespace Uniflow.Process
 
@@ -47,7 +58,7 @@ namespace Uniflow.Process
 inductive HookKind where
   | user (n : Nat)        -- harness `ExitFunc` #n (pointer identity n)
   | child (c : Nat)       -- the `*Process` c registered by `Fork`
-  | waitDone (p : Nat)    -- the closure `p.wait.Done()` a forked child is born with
+  | waitDone (p : Nat)    -- the closure `p.children--; Broadcast at 0` a forked child is born with
   deriving DecidableEq, Repr
 
 structure Hook where
@@ -61,7 +72,7 @@ structure Proc where
   err : Nat := 0
   data : List (Nat × Nat) := []        -- Go map: keys unique
   hooks : List Hook := []              -- `exitHooks`, registration order
-  waitCnt : Nat := 0                   -- `wait` counter
+  children : Int := 0                  -- `children` counter (a Go `int`)
   parent : Option Nat := none
   ctok : Nat := 0                      -- ghost
   wtok : Nat := 0                      -- ghost
@@ -73,8 +84,9 @@ structure Frame where
 
 inductive Pc where
   | idle
-  | forkReg (p : Nat)     -- between `p.wait.Add(1)` and `p.AddExitHook(child)`
-  | joining (p : Nat)     -- inside `p.wait.Wait()`
+  | forkReg (p : Nat)     -- between `p.children++` and `p.AddExitHook(child)`
+  | joining (p : Nat)     -- in `Join`, about to test `p.children > 0` (at entry, or woken by a Broadcast)
+  | waiting (p : Nat)     -- in `Join`, parked in `p.join.Wait()`
   deriving DecidableEq, Repr
 
 structure Thread where
@@ -96,7 +108,6 @@ structure State where
   nextTok : Nat := 0               -- ghost
   owner : Nat → Nat := fun _ => 0  -- ghost
   late : Nat → Bool := fun _ => false  -- ghost
-  wgPanic : Bool := false          -- `sync: negative WaitGroup counter`
 
 def init (nt : Nat) : State := { nt := nt }
 
@@ -197,7 +208,7 @@ def startOp (s : State) (t : Nat) : Op → State
   | .fork p =>
     if p < s.np then
       let pr := s.procs p
-      setThread (setProc s p { pr with waitCnt := pr.waitCnt + 1 }) t { s.threads t with pc := .forkReg p }
+      setThread (setProc s p { pr with children := pr.children + 1 }) t { s.threads t with pc := .forkReg p }
     else s
   | .join p =>
     if p < s.np then setThread s t { s.threads t with pc := .joining p } else s
@@ -208,7 +219,7 @@ def startOp (s : State) (t : Nat) : Op → State
     else s
   | .delv p k => if p < s.np then { s with procs := (removeValue s.np s.procs p k).1 } else s
 
-/-- Second half of `Fork`: the child comes into existence (born with its `wait.Done` hook). -/
+/-- Second half of `Fork`: the child comes into existence (born with its wait-done hook). -/
 def mkChild (s : State) (p : Nat) : State :=
   let wd : Hook := { kind := .waitDone p, tok := s.nextTok }
   alloc { setProc s s.np { hooks := [wd], parent := some p, wtok := s.nextTok, ctok := s.nextTok + 1 }
@@ -223,11 +234,17 @@ def logMove (s : State) (t : Nat) (f : Frame) (h : Hook) (hs : List Hook) (rest 
   { setThread s t { s.threads t with stack := { f with rem := hs } :: rest } with
     log := { tok := h.tok, proc := f.proc, kind := h.kind, err := f.err } :: s.log }
 
-/-- `p.wait.Done()` -/
+/-- `p.join.Broadcast()`: every thread parked in `p.join.Wait()` is woken; it re-tests the loop
+condition of `Join` at its next step. -/
+def broadcast (s : State) (p : Nat) : State :=
+  { s with threads := fun t =>
+      if (s.threads t).pc = .waiting p then { s.threads t with pc := .joining p } else s.threads t }
+
+/-- the child's wait-done hook: `p.mu.Lock(); if p.children--; p.children == 0 { p.join.Broadcast() }` -/
 def waitDone (s : State) (p : Nat) : State :=
   let pr := s.procs p
-  if pr.waitCnt = 0 then { s with wgPanic := true }
-  else setProc s p { pr with waitCnt := pr.waitCnt - 1 }
+  let s1 := setProc s p { pr with children := pr.children - 1 }
+  if pr.children - 1 = 0 then broadcast s1 p else s1
 
 /-- Run the hook `h` taken from the top frame of thread `t`. -/
 def runHook (s : State) (t : Nat) (f : Frame) (h : Hook) (hs : List Hook) (rest : List Frame) : State :=
@@ -241,8 +258,10 @@ def contStep (s : State) (t : Nat) : State :=
   let th := s.threads t
   match th.pc with
   | .forkReg p => forkReg s t p
-  | .joining p =>
-    if (s.procs p).waitCnt = 0 then setThread s t { th with pc := .idle } else s
+  | .joining p =>          -- `for p.children > 0 { p.join.Wait() }`: one test of the loop condition
+    if (s.procs p).children > 0 then setThread s t { th with pc := .waiting p }
+    else setThread s t { th with pc := .idle }
+  | .waiting _ => s        -- parked in `Wait`: only a Broadcast moves it
   | .idle =>
     match th.stack with
     | [] => s
@@ -252,7 +271,7 @@ def contStep (s : State) (t : Nat) : State :=
       | h :: hs => runHook s t f h hs rest
 
 /-- One scheduler choice. Choices that are not enabled (unknown thread, `start` on a busy
-thread, `Join` with a positive counter, …) leave the state unchanged, so "all schedules" is
+thread, a thread parked in `Wait`, …) leave the state unchanged, so "all schedules" is
 "all lists of choices". -/
 def step (s : State) (t : Nat) (a : Action) : State :=
   if t < s.nt then
